@@ -69,6 +69,10 @@ type call struct {
 	mustFalse bool           // cached mode: NFS4ERR_SEQ_FALSE_RETRY is required
 	mayFalse  bool           // cached mode: NFS4ERR_SEQ_FALSE_RETRY is acceptable
 
+	refusedBefore bool  // error mode, NFS4ERR_TOO_MANY_OPS: the same request was refused on this slot and sequence ID before
+	afterRefused  *call // exec mode: the request that was refused with NFS4ERR_TOO_MANY_OPS on this slot and sequence ID before
+	everParked    bool  // written under world.mu
+
 	// Written by the goroutines of the call, under world.mu.
 	plan        map[string]bool
 	park        *park
@@ -321,6 +325,7 @@ func (w *world) maybePark(ctx context.Context, kind string) {
 	w.nextParkID++
 	w.parks = append(w.parks, p)
 	c.park = p
+	c.everParked = true
 	w.mu.Unlock()
 	<-p.ch
 	w.mu.Lock()
@@ -360,6 +365,7 @@ func (w *world) release(p *park) {
 	w.mu.Unlock()
 	close(p.ch)
 	synctest.Wait()
+	w.mustHaveReturned(p.c)
 	w.collect()
 }
 
@@ -392,10 +398,12 @@ func encodeArgs(ops []nfsv4.NfsArgop4) []byte {
 }
 
 // start runs the COMPOUND of c in its own goroutine and waits for
-// quiescence. It does not look at the result. A request that cannot
-// block (it is not going to park and does not wait for another request)
-// is run on the calling goroutine instead, which is the same schedule
-// without the hand-over.
+// quiescence. It does not look at the result. (Also a request that is
+// not expected to block - it is not going to park and does not wait for
+// another request - gets a goroutine of its own: if it blocks on a channel
+// nevertheless, e.g. because an earlier, refused request left its slot
+// marked busy, the harness regains control and reports it; see
+// mustHaveReturned.)
 func (w *world) start(c *call) {
 	c.id = len(w.calls)
 	w.calls = append(w.calls, c)
@@ -423,15 +431,32 @@ func (w *world) start(c *call) {
 		c.res, c.raw, c.panicMsg, c.done = res, raw, panicMsg, true
 		w.mu.Unlock()
 	}
-	if c.mode != "wait" && !c.plan["io"] && !c.plan["open_before"] && !c.plan["open_after"] {
-		run()
-		if len(c.dups) > 0 {
-			synctest.Wait()
-		}
-		return
-	}
 	go run()
 	synctest.Wait()
+}
+
+// mustHaveReturned: at quiescence a request has returned unless the
+// harness parked it (inside leaf I/O, around VirtualOpenChild) or it is a
+// duplicate that waits for the original on whose slot and sequence ID it
+// arrived. Anything else is blocked on a channel that no request of the
+// case is going to serve: every other goroutine of the bubble is idle.
+func (w *world) mustHaveReturned(c *call) {
+	if w.isDone(c) || w.parkOf(c) != nil {
+		return
+	}
+	if c.mode == "wait" && c.orig != nil && !c.orig.collected {
+		return
+	}
+	where := ""
+	if c.sess != nil {
+		where = fmt.Sprintf(" on %s slot %d sequence %d", c.sess, c.slot, c.seq)
+		if int(c.slot) < len(c.sess.slots) {
+			if r := c.sess.slots[c.slot].refused; r != nil && c.mode != "wait" {
+				where += fmt.Sprintf(" (the previous request on that slot and sequence ID, #%d, was refused with NFS4ERR_TOO_MANY_OPS: a refused request does not consume the sequence ID and must not leave the slot busy)", r.id)
+			}
+		}
+	}
+	w.failf("C14/C19 (liveness): request #%d %q (%s%s; the model expects: %s) never returns: it is neither parked by the harness nor a duplicate of a request that is still being processed, and every goroutine of the case is idle, so it waits for something that nothing is ever going to provide (a slot or lock left behind by an earlier request)", c.id, c.desc, c.class, where, c.mode)
 }
 
 func (w *world) isDone(c *call) bool {
